@@ -14,6 +14,7 @@ mod attgen;
 mod c12;
 mod c14;
 mod c16;
+mod c16_doc;
 mod c17;
 mod c18;
 mod c19;
